@@ -272,10 +272,15 @@ bus0_sock_send(void *arg, nni_aio *aio)
 
 	msg = nni_aio_get_msg(aio);
 	len = nni_msg_len(msg);
-	nni_aio_set_msg(aio, NULL);
 
-	// this test is so that we detect when the aio itself is terminated,
-	// otherwise we could loop forever.
+	// A bus send never blocks, so a zero timeout (NNG_FLAG_NONBLOCK)
+	// must not fail it; but a stopped or aborted aio is still refused,
+	// with the message left on the aio.
+	if ((nni_aio_get_timeout(aio) != NNG_DURATION_ZERO) &&
+	    (!nni_aio_start(aio, NULL, NULL))) {
+		return;
+	}
+	nni_aio_set_msg(aio, NULL);
 
 	if (s->raw) {
 		// In raw mode, we look for the message header, to see if it
@@ -290,11 +295,6 @@ bus0_sock_send(void *arg, nni_aio *aio)
 	}
 
 	nni_mtx_lock(&s->mtx);
-
-	if (!nni_aio_start(aio, NULL, NULL)) {
-		nni_mtx_unlock(&s->mtx);
-		return;
-	}
 
 	NNI_LIST_FOREACH (&s->pipes, pipe) {
 
